@@ -392,6 +392,12 @@ def do_write(w, cfg, seed, op, cursor, arr=None):
     g, b, length = op_blocks(op, cursor)
     if arr is None:
         arr = values_for(cfg, seed, g, b, length)
+    if cfg["cplx"] and (int(g[0]) + length) % 3 == 0 and arr.shape[0]:
+        # complex channels also accept real-typed interleaved I/Q: shape (N, 2*nsub), or for one subchannel a flat
+        # buffer of 2N values as np.frombuffer hands it over (the same bytes, so the model is unchanged)
+        arr = np.ascontiguousarray(arr).view(cfg.real_dtype())
+        if cfg["nsub"] == 1:
+            arr = arr.reshape(-1)
     if op[0] == "w":
         return w.rf_write(arr, g[0])
     if op[0] == "wn":
